@@ -417,8 +417,14 @@ func (r vfHTTPReq) Context(env *vfEnvT) (*context.Context, bool) {
 func vfDrain(ctx *context.Context) {
 	if v := ctx.GetResponse(context.DefaultNamespace); v != nil {
 		if r, ok := v.(*httpprot.Response); ok {
-			_ = r.StatusCode()
-			_, _ = io.Copy(io.Discard, r.GetPayload())
+			// same calls as serveHTTP's deferred function, against a recording ResponseWriter
+			w := httptest.NewRecorder()
+			header := w.Header()
+			for k, v := range r.HTTPHeader() {
+				header[k] = v
+			}
+			w.WriteHeader(r.StatusCode())
+			_, _ = io.Copy(w, r.GetPayload())
 		}
 	}
 	ctx.Finish()
